@@ -88,6 +88,7 @@ def run (args : List String) : String :=
       | .ok t, some (v, []) => "ok " ++ toHex (D t v)
       | _, _ => "bad-op"
     | none => "bad-op"
+  | ["enc.fail", _] => "err"     -- a nil dynamic value has no encoding; a failed write is reported: nothing is kept (the encoder has no state)
   | "enc.reflect" :: sigh :: toks =>
     match parseHex sigh with
     | some sig =>
